@@ -67,6 +67,10 @@ def run_model(spec, case, dialect='back', model=None):
             md.op_enqueue(o['ev'], o['payload'])
         elif k == 'X':
             md.op_exec(o['mode'], o.get('val', 0), norm_scripts(o.get('scripts')))
+        elif k == 'N':
+            md.tok('pend=%d' % md.pending())
+        elif k == 'B':
+            md.tok('PB{}')
         else:
             raise ValueError('model cannot run op %r' % (o,))
     return md
@@ -146,3 +150,39 @@ def depth_zero(seg):
         if t.startswith(']'):
             d -= 1
     return d == 0
+
+
+def parse_line(line):
+    """inverse of to_line"""
+    out = []
+    for tok in line.split():
+        sc = tok.split(';')
+        f = sc[0].split(':')
+        k = f[0]
+        scripts = {}
+        for s in sc[1:]:
+            at, _, body = s.partition('=')
+            b = body.split('.')
+            if b[0] == 'p':
+                scripts.setdefault(int(at), []).append(['p', int(b[1]), int(b[2]), b[3]])
+            else:
+                scripts.setdefault(int(at), []).append([b[0]])
+        if k in ('S', 'T'):
+            out.append(dict(op=k, val=int(f[1], 16) if len(f) > 1 else 0, scripts=scripts))
+        elif k == 'P':
+            out.append(dict(op='P', ev=int(f[1]), payload=int(f[2]), val=int(f[3], 16), scripts=scripts))
+        elif k == 'Q':
+            out.append(dict(op='Q', ev=int(f[1]), payload=int(f[2])))
+        elif k == 'X':
+            out.append(dict(op='X', mode=f[1], val=int(f[2], 16) if len(f) > 2 else 0, scripts=scripts))
+        elif k in ('B', 'N', 'C', 'M'):
+            out.append(dict(op=k))
+        elif k in ('A', 'MA'):
+            out.append(dict(op=k, dst=int(f[1]), src=int(f[2])))
+        elif k in ('W', 'D'):
+            out.append(dict(op=k, obj=int(f[1])))
+        elif k == 'V':
+            out.append(dict(op='V', fmt=f[1]))
+        else:
+            raise ValueError(tok)
+    return out
